@@ -44,6 +44,7 @@ pub struct HistCounters {
     pub drops_never_polled: u64,
     pub envelope_violations_sent: u64,
     pub messages_ending_in_empty_frame: u64,
+    pub frames_beyond_64k: u64,
     pub reconnects_same_identity: u64,
     pub cooperative_yields: u64,
     pub max_overtaken: u64,
@@ -235,7 +236,14 @@ pub async fn run(o: &HistOpts) -> HistOutcome {
                         p.fed.push((u32::MAX, true));
                         c.envelope_violations_sent += 1;
                     } else {
-                        let shape: Vec<usize> = (0..r.range(1, 3)).map(|_| *r.pick(&[0usize, 1, 17, 255, 256, 3000, 9000])).collect();
+                        let mut shape: Vec<usize> = (0..r.range(1, 3)).map(|_| *r.pick(&[0usize, 1, 17, 255, 256, 3000, 9000])).collect();
+                        if r.chance(1, 10) {
+                            // a frame well beyond the 64 KiB the decoder reserves at a time, with
+                            // the next message right behind it in the same delivery
+                            let k = r.below(shape.len());
+                            shape[k] = *r.pick(&[70_000usize, 140_000]);
+                            c.frames_beyond_64k += 1;
+                        }
                         // (a quarter of all tagged messages end in an empty frame, see refcodec)
                         let payload = rc::tagged(i as u16, p.next_seq, &shape);
                         if rc::trailing_empty(i as u16, p.next_seq) {
